@@ -475,6 +475,30 @@ func (fc *FnCtx) evalCall(x *ECall, env *Env) Val {
 			fc.fail("sliceoff of kind %d", v.K)
 		}
 		return intVal(v.C[1])
+	case "ghost":
+		// ghost(x, "name"): the ghost integer `name` attached to the object x designates (x: a pointer, or a local
+		// variable whose address is taken - then the variable itself).  Ghost state lives in the heap
+		// G.<type>.<name>; only contracts read and constrain it.
+		lit, ok := x.Args[1].(*ELit)
+		if !ok || lit.Kind != "string" {
+			fc.fail("ghost(x, \"name\")")
+		}
+		var ref string
+		var tn string
+		if id, isId := x.Args[0].(*EIdent); isId {
+			if a, at := fc.addrOfVar(id.Name); a != "" {
+				ref, tn = a, typeName(at)
+			}
+		}
+		if ref == "" {
+			v := fc.evalExpr(x.Args[0], env)
+			if v.K != KPtr {
+				fc.fail("ghost: first argument must be a pointer or an address-taken variable")
+			}
+			ref, tn = v.C[0], typeName(derefType(v.T))
+		}
+		hn := "G." + tn + "." + lit.Val
+		return intVal(fmt.Sprintf("(select %s %s)", fc.getHeapTerm(h, hn, arrOf(SInt)), ref))
 	case "called":
 		// called("F"): a call to F was executed on the path leading here
 		lit, ok := x.Args[0].(*ELit)
